@@ -134,6 +134,7 @@ func checkC13(c *Ctx) {
 	c.Level = "model_checking"
 	c.Set("rule", "GoccLex.tla defines every ASCII spelling of a code point (character, \\x, octal, \\u, \\U in both cases, named escape) and the layouts between tokens; TLC checks that each spelling denotes the code point under Go's literal rule and emits the spelling table; seeded respelling plans (per token a spelling, per gap a layout or none where tokens cannot fuse, either quoting style for plain string literals) are applied to generated grammars and the real gocc must produce byte-identical packages and the same exit status for the canonical and the respelled file. distinct_nontrivial counts distinct respelled files")
 	c.Assume("respelling is applied to grammar texts rendered and tokenised by the harness itself; the character itself as the spelling of a non-ASCII code point is added by the harness (the TLA+ model spells literals in ASCII)")
+	c.scannerReplay()
 	rng := rand.New(rand.NewSource(c.Seed))
 	type base struct {
 		text string
@@ -244,4 +245,65 @@ func replayRespell(c *Ctx, r *Replay) (bool, string) {
 		return true, fmt.Sprintf("exit %d vs %d, packages identical: %v; %s", ra.Code, rb.Code, ha == hb, strings.TrimSpace(tail(rb.Out, 2)))
 	}
 	return false, "same exit status and byte-identical packages"
+}
+
+// scannerReplay: the reference tokenizer of GoccScan.tla (the documented token language over
+// character classes, well-formed texts only) is evaluated by TLC on every text up to the bound
+// and on texts composed of token fragments and layouts; the real front-end scanner must return
+// exactly these token streams (kinds and extents) without counting an error.
+func (c *Ctx) scannerReplay() {
+	cfg := fmt.Sprintf("INIT Init\nNEXT Next\nCONSTANT MaxLen = %d\nCHECK_DEADLOCK FALSE\n", c.pick(3, 4))
+	r := c.RunTLC(TLCOpts{Module: "GoccScan", Cfg: cfg, Workers: 1, Timeout: 40 * time.Minute})
+	if !r.OK {
+		infra("GoccScan.tla failed (%s)\n%s", r.ErrKind, tail(filterTLC(r.Out), 30))
+	}
+	tpath := filepath.Join(r.Dir, "scan.json")
+	b, err := os.ReadFile(tpath)
+	if err != nil {
+		infra("GoccScan wrote no table")
+	}
+	var tab struct {
+		Texts    []json.RawMessage `json:"texts"`
+		Composed []json.RawMessage `json:"composed"`
+		All      int               `json:"all"`
+		NComp    int               `json:"ncomposed"`
+	}
+	json.Unmarshal(b, &tab)
+	c.Add("states", int64(tab.All+tab.NComp))
+	c.Add("transitions", int64(tab.All+tab.NComp))
+	c.Set("scanner_reference", map[string]int{"texts_enumerated": tab.All, "well_formed": len(tab.Texts), "composed_enumerated": tab.NComp, "composed_well_formed": len(tab.Composed)})
+	res := c.overlayTest("internal/frontend/scanner", map[string]string{"scanner_verif_test.go": "zz_scanner_verif_test.go"}, "TestVerifScanner", []string{"VERIF_SCAN_TABLE=" + tpath}, 20*time.Minute)
+	for _, st := range linesWith(res.Out, "VERIF-STATS") {
+		var n, m int
+		fmt.Sscanf(st, "texts=%d mismatches=%d", &n, &m)
+		c.Add("traces_validated_against_impl", int64(n))
+		c.Add("evaluations", int64(n))
+	}
+	for _, mm := range linesWith(res.Out, "VERIF-MISMATCH") {
+		var e struct {
+			Text    string
+			Classes []string
+			Got     any
+			Want    any
+			Errors  int
+		}
+		json.Unmarshal([]byte(mm), &e)
+		if c.firstFor("scan" + e.Text) {
+			c.Violation(Replay{Kind: "scanner", What: fmt.Sprintf("the front-end scanner tokenises %q as %v (errors counted: %d); the documented token language gives %v", e.Text, e.Got, e.Errors, e.Want),
+				Data: map[string]any{"classes": e.Classes, "want": e.Want}})
+		}
+	}
+}
+
+func init() {
+	replayers["scanner"] = func(c *Ctx, r *Replay) (bool, string) {
+		tab := map[string]any{"texts": []any{[]any{r.Data["classes"], r.Data["want"]}}, "composed": []any{}}
+		tpath := filepath.Join(c.Scratch, "scan1.json")
+		mustWrite(tpath, mustJSON(tab))
+		res := c.overlayTest("internal/frontend/scanner", map[string]string{"scanner_verif_test.go": "zz_scanner_verif_test.go"}, "TestVerifScanner", []string{"VERIF_SCAN_TABLE=" + tpath}, 10*time.Minute)
+		if mm := linesWith(res.Out, "VERIF-MISMATCH"); len(mm) > 0 {
+			return true, mm[0]
+		}
+		return false, "token stream equals the reference"
+	}
 }
